@@ -159,7 +159,7 @@ Print Assumptions C03_placement_custom_is_block_reversed_shuffle.
 (* ... which is a bijection on the arrangements of a stub list (an involution that permutes) *)
 Theorem C03_block_reversal_involutive : forall n a, 0 < n -> length a mod n = 0 ->
   block_rev n (block_rev n a) = a /\ Permutation (block_rev n a) a.
-Proof. intros n a Hn Hm. split; [now apply block_rev_invol|now apply block_rev_perm]. Qed.
+Proof. exact block_rev_invol_perm. Qed.
 Print Assumptions C03_block_reversal_involutive.
 
 (* hence the histogram c03_check builds from the calls of ALL runs of the sample space is accepted,
